@@ -5,6 +5,6 @@ CONSTANTS
   XfOnlyIds = {0, 22, 47}
   MaxFmts = 2
   Sxf = "dates"
-  MaxXfs = 3
+  MaxXfs = 2
 INVARIANTS Refines Dump
 CHECK_DEADLOCK FALSE
